@@ -7,4 +7,4 @@ Extraction "extracted/c14_model.ml"
   u32 calc_op calculate calculate_partials
   use_message_priority use_message_id use_node_id use_bit_mask use_can2a default_ops
   insert_operation remove_operation remove_all_operations apply_edit
-  get_can_id view accepted wapply wstep world_can_id init_world.
+  get_can_id view accepted wapply wstep world_can_id gateway_can_id init_world.
